@@ -199,10 +199,13 @@ def grid_histories(ctx):
                 return [(sh.server, sh.shnum) + share_version(g, sh) for sh in g.find_shares(node.get_uri())]
 
             def record_new(pre):
+                # a new version is a new (seqnum, root hash) pair; the survey only sees reachable servers,
+                # so the new seqnum must exceed the reachable shares' seqnums (it may legitimately equal
+                # the seqnum of a version that survives only on servers that are down)
                 post = observe()
                 premax = max([s[2] for s in pre if s[0] not in down] or [0])
-                newseqs = set(s[2] for s in post) - set(s[2] for s in pre)
-                return premax, newseqs, post
+                newvers = set((s[2], s[3]) for s in post) - set((s[2], s[3]) for s in pre)
+                return premax, set(v[0] for v in newvers), post
             pre = []
             premax, newseqs, post = record_new(pre)
             for sq in newseqs:
